@@ -96,6 +96,21 @@ pub fn remove_op(ty: u16) -> L {
     L::Unknown(REMOVE_MARK, Some(ty.to_be_bytes().to_vec()))
 }
 
+/// Time base of a new world. Clients are independent objects: each gets its own, unrelated time line, and on every thread
+/// each new client starts EARLIER (by 40 days) than the one before it, wrapping around after 512 clients - nothing a
+/// client saw may leak into another one through thread-local or global state (e.g. a shared epoch).
+fn next_time_base() -> Instant {
+    static T0: std::sync::OnceLock<Instant> = std::sync::OnceLock::new();
+    thread_local! { static K: std::cell::Cell<u64> = std::cell::Cell::new(0); }
+    let t0 = *T0.get_or_init(Instant::now);
+    let k = K.with(|c| {
+        let v = c.get();
+        c.set(v + 1);
+        v
+    });
+    t0 + Duration::from_secs(3600) + Duration::from_secs((511 - (k % 512)) * 40 * 86_400)
+}
+
 /// what the caller's buffer holds before a send: never zeros, so bytes the encoder fails to write show up
 pub const DIRTY: u8 = 0xA5;
 
@@ -293,7 +308,7 @@ impl World {
         World {
             cfg: cfg.clone(),
             client: cfg.build(),
-            base: Instant::now() + Duration::from_secs(3600),
+            base: next_time_base(),
             now: 0,
             reqs: vec![],
             inds: vec![],
@@ -399,7 +414,11 @@ impl World {
         let attrs = self.attrs(app);
         let at = self.instant();
         let m = MessageMethod::try_from(self.cfg.method).unwrap();
+        // the application keeps its own handle to the collection (a template it sends again later): a clone stays alive
+        // across the call
+        let template = attrs.clone();
         let r = guard(|| self.client.send_request(m, attrs, vec![DIRTY; 2048], at));
+        drop(template);
         self.after_send(r, app, true, m)
     }
 
@@ -417,10 +436,14 @@ impl World {
         let at = self.instant();
         let m = MessageMethod::try_from(method).unwrap();
         if indication {
+            let template = attrs.clone();
             let r = guard(|| self.client.send_indication(m, attrs, vec![DIRTY; 2048]));
+            drop(template);
             self.after_send(r, app, false, m)
         } else {
+            let template = attrs.clone();
             let r = guard(|| self.client.send_request(m, attrs, vec![DIRTY; 2048], at));
+            drop(template);
             self.after_send(r, app, true, m)
         }
     }
